@@ -684,6 +684,37 @@ def labelcount_pass(run: Run, pkg: Package, funcs: List[FunctionInfo]) -> int:
 
 
 # --------------------------------------------------------------------------------------------------------------------
+def reduceat_pass(run: Run, pkg: Package, funcs: List[FunctionInfo]) -> int:
+    """R-REDUCEAT: numpy's documented contract - `ufunc.reduceat(a, idx)` returns a[idx[i]] (not the identity) for an EMPTY
+    segment idx[i] >= idx[i+1].  Segment starts built as cumsum(counts) - counts have empty segments wherever a count is 0
+    (a particle without neighbours), so the "sum over the segment" silently becomes the first value of the next segment."""
+    n = 0
+    for fi in funcs:
+        for c in ast.walk(fi.node):
+            if not (isinstance(c, ast.Call) and isinstance(c.func, ast.Attribute) and c.func.attr == "reduceat" and len(c.args) >= 2):
+                continue
+            n += 1
+            idx = c.args[1]
+            names = {m.id for m in ast.walk(idx) if isinstance(m, ast.Name)}
+            from_cumsum = "cumsum" in ast.unparse(idx)
+            for st in ast.walk(fi.node):
+                if isinstance(st, ast.Assign) and any(isinstance(t, ast.Name) and t.id in names for t in st.targets) and "cumsum" in ast.unparse(st.value):
+                    from_cumsum = True
+            if not from_cumsum:
+                continue
+            # a correction for empty segments: some comparison of a count with 0 in the same function (mask / np.where)
+            corrected = any(isinstance(x, ast.Compare) and any(isinstance(k, ast.Constant) and k.value == 0 for k in [x.left] + list(x.comparators)) for x in ast.walk(fi.node))
+            if corrected:
+                continue
+            run.ob("R-REDUCEAT", short(fi.qual), f"reduceat@{norm_stmt(_stmt_of(c, parents_map(fi.node)))[:60]}", False,
+                   "a segment sum over consecutive runs is 0 for an empty run",
+                   f"{ast.unparse(c)[:90]}: segment starts from a cumulative sum of counts, no correction for counts equal to 0",
+                   witness="counts (2, 0, 3): the middle segment is empty and reduceat returns the first value of the third run instead of 0 "
+                           "(and raises IndexError when the empty run is the last one)", loc=fi.loc(c), sound=True)
+    return n
+
+
+# --------------------------------------------------------------------------------------------------------------------
 def savepath_pass(run: Run, pkg: Package, funcs: List[FunctionInfo]) -> int:
     """R-SAVE-PATH: a routine that writes its result to a file named by one of its parameters does so on every path that returns
     a result.  A `return <value>` that precedes the first save site (an early exit / fast path) hands back a value without
@@ -931,18 +962,24 @@ def state_pass(run: Run, pkg: Package, everything: bool = False, mask_forward_on
                         seen.add(g.qual)
                         funcs.append(g)
                         work.append(g)
+    # rules about state, repeated calls and what is written to files (the subject of C18, which runs them package-wide) ...
     counts = {
         "oneshot_bindings": oneshot_pass(run, pkg, funcs),
         "self_updates": selfupdate_pass(run, pkg, funcs),
         "grown_lists": accum_pass(run, pkg, funcs),
-        "forwardable_options": forward_pass(run, pkg, funcs),
         "delegated_saves": savefwd_pass(run, pkg, funcs),
         "empty_allocations": uninit_pass(run, pkg, funcs),
         "stored_fields": statepath_pass(run, pkg, funcs),
-        "usecols_reads": usecols_pass(run, pkg, funcs),
-        "falsy_defaults": falsy_pass(run, pkg, funcs),
-        "dict_value_arrays": dictorder_pass(run, pkg, funcs),
         "saving_routines": savepath_pass(run, pkg, funcs),
-        "label_count_loops": labelcount_pass(run, pkg, funcs),
     }
+    if not everything:
+        # ... and rules about the value a single call computes: they speak for the property that anchors the function only
+        counts.update({
+            "forwardable_options": forward_pass(run, pkg, funcs),
+            "usecols_reads": usecols_pass(run, pkg, funcs),
+            "falsy_defaults": falsy_pass(run, pkg, funcs),
+            "dict_value_arrays": dictorder_pass(run, pkg, funcs),
+            "label_count_loops": labelcount_pass(run, pkg, funcs),
+            "reduceat_calls": reduceat_pass(run, pkg, funcs),
+        })
     run.extra["state_rules"] = {"functions": len(funcs), **counts}
